@@ -133,6 +133,7 @@ def parse_known():
     return known, fixed
 
 
+MAX_STOPS_PER_SHARD = 3   # crashed/hung workers per shard before the rest of the shard is skipped
 _CHILDREN = []
 
 
@@ -179,7 +180,13 @@ def run_impl_sharded(binary, args, inputs, workers=None, per_case_timeout=20.0, 
 
     def work(lo, hi):
         cur = lo
+        stops = 0
         while cur < hi:
+            if stops >= MAX_STOPS_PER_SHARD:
+                # the implementation is badly broken on this shard: enough evidence, do not grind through the rest
+                for k in range(cur, hi):
+                    results[k] = "SKIPPED\t-"
+                return
             p = start(cur, hi)
             data = "\n".join(inputs[cur:hi]) + "\n"
             budget = max(600.0, per_case_timeout + 0.02 * (hi - cur))  # generous: a loaded machine must not turn into a HANG verdict
@@ -203,6 +210,7 @@ def run_impl_sharded(binary, args, inputs, workers=None, per_case_timeout=20.0, 
             first = msg[0][:200] if msg else ""
             results[cur + got] = f"{tag}:{first}\t-"
             cur = cur + got + 1
+            stops += 1
 
     ths = [threading.Thread(target=work, args=s) for s in shards]
     for t in ths:
@@ -403,6 +411,9 @@ def correspond(run, cfg, have_model=True):
     for c, im in zip(cases, impl):
         inp, mV, mR, sV, tags = c[0], c[1], c[2], c[3], c[4].split(",") if c[4] else []
         iv, ir = (im.split("\t") + ["", ""])[:2] if im is not None else ("MISSING", "-")
+        if iv == "SKIPPED":
+            stats["skipped_after_repeated_crashes"] += 1
+            continue
         stats["evaluations"] += 1
         dist[" ".join(inp.split(" ")[: cfg.get("dist_tokens", 2)])[:40]] += 1
         if sV.startswith("E:"):
@@ -422,6 +433,7 @@ def correspond(run, cfg, have_model=True):
         "evaluations": stats["evaluations"],
         "distinct_nontrivial": len(seen_nt),
         "known_finding_cases": stats["known_finding_cases"],
+        "skipped_after_repeated_crashes": stats["skipped_after_repeated_crashes"],
         "corpus_cases": ncorpus,
         "distribution": dict(dist.most_common(60)),
         "spec_error_kinds": dict(errkinds),
